@@ -1099,3 +1099,22 @@ Proof.
 Qed.
 Print Assumptions tr_ec_edit_head.
 Print Assumptions tr_ec_buffer_guard.
+
+(* ------------------------------------------------------------------ bufs_modified(idx, msg) with autowrite off, all cases in one statement *)
+Theorem tr_bufs_modified ext m t i h msg B d fuel : B <= 2147483647 -> tab_at m t -> tab_ok t -> (i < 16)%nat ->
+  slot_heap B m (nths t i) h -> cell_at m G_xaw 0 -> ptr_val msg -> (forall bl blk lb, h = Some (bl, blk, lb) -> bl <> G_xaw) ->
+  match h with
+  | None => callx ext cprog fuel (S (S (S d))) F_bufs_modified [VInt (Z.of_nat i); msg] m = Ok (VInt 0, m)
+  | Some (bl, blk, lb) =>
+      if snd (lbuf_modified lb)
+      then forall m2, show_call ext msg (bump_mem m bl blk lb) m2 ->
+           callx ext cprog fuel (S (S (S d))) F_bufs_modified [VInt (Z.of_nat i); msg] m = Ok (VInt 1, m2)
+      else callx ext cprog fuel (S (S (S d))) F_bufs_modified [VInt (Z.of_nat i); msg] m = Ok (VInt 0, bump_mem m bl blk lb)
+  end.
+Proof.
+  intros HB Hm Ht Hi Hh Haw Hmsg Hna. destruct h as [[[bl blk] lb]|]; cbn [slot_heap] in Hh.
+  - destruct Hh as (Hc & R & Hints & Hu). destruct (snd (lbuf_modified lb)) eqn:Hfl.
+    + intros m2 Hshow. apply (tr_bufs_modified_dirty ext m t i bl blk lb msg m2 d fuel Hm Ht Hi Hc R Hints ltac:(lia) Hfl (Hna _ _ _ eq_refl) Haw Hmsg Hshow).
+    + apply (tr_bufs_modified_clean ext m t i bl blk lb msg d fuel Hm Ht Hi Hc R Hints ltac:(lia) Hfl).
+  - apply (tr_bufs_modified_null ext m t i msg (S (S d)) fuel Hm Ht Hi Hh).
+Qed.
